@@ -381,6 +381,9 @@ func main() {
 				jsonNotLegacy(r, c, s, "fixed")
 			}
 		}
+		if r.Replay == nil {
+			ring.Stress(r, r.CaseAlways("stress", 0), 8, 2)
+		}
 		r.Floor(int64(r.Pick(20000, 500000)), 3000)
 	})
 }
